@@ -220,9 +220,9 @@ def noise_ceiling_loo(method, rows, keep):
 def regress(method, model_rows, data_rows, sigma_k, keep, ridge=0.0):
     """normalised weights of the linear regression fit on entry-deleted vectors:
     theta = (X W X' + ridge I)^-1 X W y, W = I or (V sub-block)^-1, X = model vectors
-    (centred for the correlation variants), y = pooled data (pool_fitter, sigma_k=None as the
-    library pools without sigma_k); theta / |theta|.  None = undefined / singular."""
-    y = pool_fitter(method, data_rows, None, keep)
+    (centred for the correlation variants), y = pooled data (pool_fitter with the same sigma_k: the
+    training RDMs are normalised under the whitened measure they are fitted with); theta / |theta|.  None = undefined / singular."""
+    y = pool_fitter(method, data_rows, sigma_k, keep)
     if y is None:
         return None
     x = np.array([[float(v) for v in r] for r in model_rows])
